@@ -118,8 +118,11 @@ def draw_abs_glyph(glyph, g):
         pen.addComponent(c["b"], tr)
     for a in g.get("anchors", []):
         # ("xf" / "yf": a raw decimal coordinate outside the dyadic domain, for checks that compare bytes rather than values)
-        glyph.appendAnchor({"name": a["n"], "x": a["xf"] if "xf" in a else from_scaled(a["x"], PS),
-                            "y": a["yf"] if "yf" in a else from_scaled(a["y"], PS)})
+        d = {"name": a["n"], "x": a["xf"] if "xf" in a else from_scaled(a["x"], PS),
+             "y": a["yf"] if "yf" in a else from_scaled(a["y"], PS)}
+        if a.get("id"):
+            d["identifier"] = a["id"]        # (keys the anchor's entry in the glyph's public.objectLibs)
+        glyph.appendAnchor(d)
 
 
 def build_font(case, lib="ufoLib2"):
